@@ -256,6 +256,111 @@ func runC19(c *Ctx) {
 	}
 	c.R.RequireMin("R19.3", "accesses to ClassifierBackend.results in tasks", nAcc, 2)
 
+	// ---- R19.11 every argument is walked ------------------------------------------------------
+	// in the function that expands the arguments into files, every pass through the loop over the arguments reaches the
+	// walk of that argument unless it returns (an error): no argument is skipped because of what an earlier one was
+	{
+		toolPkg := strings.TrimSuffix(backendPkg, "/backend")
+		nL := 0
+		for _, fn := range p.SrcFuncs(toolPkg) {
+			if core.FuncPkgPath(fn) != toolPkg || fn.Parent() != nil {
+				continue
+			}
+			var walk ssa.CallInstruction
+			for _, call := range core.CallsIn(fn) {
+				if n := core.StaticCalleeName(call.Common()); n == "path/filepath.Walk" || n == "path/filepath.WalkDir" {
+					walk = call
+				}
+			}
+			if walk == nil {
+				continue
+			}
+			for _, rl := range rangeLoopsOf(fn) {
+				prm, isPrm := core.Unspill(rl.over).(*ssa.Parameter)
+				if !isPrm || prm.Parent() != fn {
+					continue
+				}
+				loop := naturalLoop(rl.header)
+				if !loop[walk.Block()] {
+					continue
+				}
+				nL++
+				// a way from the loop head back to the loop head that does not pass the walk
+				seen := map[*ssa.BasicBlock]bool{}
+				var skips func(b *ssa.BasicBlock) bool
+				skips = func(b *ssa.BasicBlock) bool {
+					if b == walk.Block() || !loop[b] || seen[b] {
+						return false
+					}
+					seen[b] = true
+					for _, sc := range b.Succs {
+						if sc == rl.header {
+							return true
+						}
+						if skips(sc) {
+							return true
+						}
+					}
+					return false
+				}
+				skipped := false
+				for _, sc := range rl.header.Succs {
+					if loop[sc] && skips(sc) {
+						skipped = true
+					}
+				}
+				c.R.Check(!skipped, "R19.11", core.ShortFn(fn)+": every argument is walked", p.Pos(walk.Pos()), "every pass through the loop over the arguments reaches filepath.Walk or returns",
+					"a pass through the loop over the arguments can go on to the next argument without walking this one: its files are silently left out")
+			}
+		}
+		c.R.RequireMin("R19.11", "loops over the arguments that walk them", nL, 1)
+	}
+
+	// ---- R19.12 the text of a classification is read or the reading fails -----------------------
+	// the function that re-reads the lines of a match returns an empty text only together with an error
+	if rl := p.Func(strings.TrimSuffix(backendPkg, "/backend")+"/results", "readFileLines"); rl != nil {
+		nR, bad := 0, ""
+		for _, b := range rl.Blocks {
+			ret, ok := b.Instrs[len(b.Instrs)-1].(*ssa.Return)
+			if !ok || len(ret.Results) != 2 {
+				continue
+			}
+			nR++
+			// with a deferred call in the function the results are spilled: the value returned is the one stored last into
+			// the result cell in this block
+			unspill := func(v ssa.Value) ssa.Value {
+				ld, ok := v.(*ssa.UnOp)
+				if !ok || ld.Op != token.MUL {
+					return v
+				}
+				al, ok := ld.X.(*ssa.Alloc)
+				if !ok {
+					return v
+				}
+				var last ssa.Value
+				for _, in := range b.Instrs {
+					if in == ssa.Instruction(ld) {
+						break
+					}
+					if st, ok := in.(*ssa.Store); ok && st.Addr == ssa.Value(al) {
+						last = st.Val
+					}
+				}
+				if last != nil {
+					return last
+				}
+				return v
+			}
+			if sv, isS := core.ConstString(unspill(ret.Results[0])); isS && sv == "" {
+				if cst, isC := unspill(ret.Results[1]).(*ssa.Const); isC && cst.Value == nil {
+					bad = p.Pos(ret.Pos())
+				}
+			}
+		}
+		c.R.Check(bad == "" && nR > 0, "R19.12", "readFileLines: an empty text is returned only with an error", p.Pos(rl.Pos()), fmt.Sprintf("%d returns", nR),
+			"an empty text is returned without an error at "+bad+": with -include_text the classification of a one-line span (a license on one long line, a Copyright match) carries no text")
+	}
+
 	// ---- R19.10 what is recorded for a file is built from that file's matches -----------
 	// every value appended to the result list is a LicenseType built by a composite literal of this call (whose fields
 	// R19.1 ties to the match and to the file name) - not an element fetched from somewhere else (a cache of what was found
